@@ -179,9 +179,10 @@ def main(argv: list[str] | None = None) -> int:
                 spurious.append(rec)
         r["counterexamples_total"] = len(r.get("counterexamples", []))
         if real:
-            path = replay_path(pid, real[0])
-            violations.append((real[0], path))
-            r["violation_replay"] = path
+            for rec in real[:6]:
+                path = replay_path(pid, rec)
+                violations.append((rec, path))
+            r["violation_replay"] = violations[-1][1]
         else:
             r["status_after_replay"] = "KNOWN" if known_hits else "SPURIOUS"
 
